@@ -111,6 +111,18 @@ def r1(chk, prog, variant):
                 if name.kind == "global":
                     g = f.module.globals.get(name.v)
                 ok = g is not None and g.bytes == b"C\0" and d.ops[0].kind == "int" and (d.ops[0].v & (1 << 1)) != 0
+            # newlocale() modifies or releases the object it is given as base: that must be the parser's own duplicate (or none),
+            # never the caller's locale as read at entry
+            if d is not None and d.op == "call" and d.callee == "newlocale" and len(d.ops) > 2:
+                from ..heapuse import _may_derive_from
+                n += 1
+                if _may_derive_from(f, d.ops[2], set(old_regs)):
+                    chk.refuted(rid, f.name, "base of newlocale", d.locstr(),
+                                "the base object handed to newlocale() may be the caller's own locale (the value uselocale(NULL) "
+                                "returned) instead of a duplicate: newlocale() changes or frees its base, so a thread-specific locale "
+                                "installed by the caller is modified / released by the parse", variant=variant)
+                else:
+                    chk.proven(rid, f.name, "base of newlocale", d.locstr(), "the base is not the caller's locale object", variant=variant)
             if ok:
                 chk.proven(rid, f.name, "installed locale", inst.locstr(), 'installed locale is newlocale(mask including LC_NUMERIC, "C", ...)', variant=variant)
             else:
